@@ -51,6 +51,7 @@ type adapter[K any] struct {
 	unmk    func(K) int
 	ord     func(int) int
 	raw     any
+	clone   func() *adapter[K] // a second list of the same kind (the twin, see execTyped)
 }
 
 type pair struct{ A, B int }
@@ -94,6 +95,7 @@ func ordinary[K interface {
 		l = &s
 	}
 	return &adapter[K]{l: l, name: "listz.(*SkipList)", raw: l, mk: mk, unmk: unmk, ord: func(i int) int { return i },
+		clone: func() *adapter[K] { return ordinary(0, mk, unmk) },
 		getNode: func(k K) (K, int, func(int), bool) {
 			n := l.GetNode(k)
 			if n == nil {
@@ -124,6 +126,7 @@ func withCmp[K any](start int, cmp func(a, b K) int, mk func(int) K, unmk func(K
 		l = &s
 	}
 	return &adapter[K]{l: l, name: "listz.(*SkipListWithCmp)", raw: l, mk: mk, unmk: unmk, ord: ord,
+		clone: func() *adapter[K] { return withCmp(0, cmp, mk, unmk, ord) },
 		getNode: func(k K) (K, int, func(int), bool) {
 			n := l.GetNode(k)
 			if n == nil {
@@ -150,6 +153,9 @@ func gen(r *sim.Rng, tier string) *sim.Case {
 	c := &sim.Case{Params: map[string]int{}}
 	kind := r.N(9)
 	c.Params["kind"] = kind
+	if r.Pct(20) {
+		c.Params["twin"] = 1 // a second list of the same type is used alternately
+	}
 	start := r.Pick(4, 2, 3)
 	if kind >= 3 && start == 2 {
 		start = 1
@@ -319,6 +325,11 @@ func levelOf(raw any) int {
 
 func execTyped[K any](c *sim.Case, ad *adapter[K], out *sim.WorkerOut, dg *engc.Digest) (*sim.Violation, bool) {
 	md := &model{m: map[int]int{}, ord: ad.ord}
+	var twin *adapter[K]
+	tmd := &model{m: map[int]int{}, ord: ad.ord}
+	if c.P("twin") == 1 {
+		twin = ad.clone()
+	}
 	site := func(op string) string { return ad.name + "." + op }
 	mism := func(op string, format string, a ...any) *sim.Violation {
 		return &sim.Violation{Class: "model_mismatch:" + op, Site: site(op), Detail: fmt.Sprintf(format, a...)}
@@ -458,7 +469,44 @@ func execTyped[K any](c *sim.Case, ad *adapter[K], out *sim.WorkerOut, dg *engc.
 				}
 			}
 		}
+		// the twin: a second list of the same type, used alternately with the first one.  Two
+		// instances share nothing, so neither may notice the other (package-level pools,
+		// caches or scratch buffers would couple them).
+		if twin != nil {
+			kb := (op.K*5 + idx) % domain
+			var tv *sim.Violation
+			pv := engc.Call(ad.name+".Set", func() {
+				if idx%5 == 4 {
+					_, got := twin.l.Remove(twin.mk(kb))
+					if _, present := tmd.m[kb]; got != present {
+						tv = mism("Remove", "twin list, op %d: Remove(%d) = %v, key present = %v", idx, kb, got, present)
+					}
+					delete(tmd.m, kb)
+				} else {
+					twin.l.Set(twin.mk(kb), idx)
+					tmd.m[kb] = idx
+				}
+				if tv == nil && (idx%8 == 7 || idx == len(c.Ops)-1) {
+					if n := twin.l.Len(); n != len(tmd.m) {
+						tv = mism("Len", "twin list, after op %d: Len() = %d, model %d", idx, n, len(tmd.m))
+					} else {
+						tv = enumCheck(twin, tmd, sim.Op{Op: []string{"All", "Keys", "Range", "Values"}[idx/8%4]}, idx)
+					}
+				}
+			})
+			if pv != nil {
+				pv.Detail += " [twin list]"
+				return pv, true
+			}
+			if tv != nil {
+				tv.Detail += " [twin list used alternately with the first]"
+				return tv, true
+			}
+		}
 		dg.Add(op.Op, len(md.m), lvl)
+	}
+	if twin != nil {
+		out.Probes["twin_instance_used_alternately"]++
 	}
 	if grew > 0 {
 		out.Probes["top_level_grew"] += grew
